@@ -118,6 +118,8 @@ pub struct Model {
     pub nf: Vec<Vec<BTreeSet<NonFungibleLocalId>>>,
     /// counter for fresh non-fungible ids
     pub next_id: u64,
+    /// counter for KV keys of the persistent puppet components never used before in this history
+    pub next_key: u32,
     /// WASM packages callable (`Test::f`): the world's plus those published by the history
     pub wasm: Vec<PackageAddress>,
 }
@@ -135,7 +137,7 @@ impl Model {
             .iter()
             .map(|r| (0..n_acc).map(|a| r.initial_ids.iter().filter(|(acc, _)| *acc == a).map(|(_, id)| id.clone()).collect()).collect())
             .collect();
-        Model { fung, xrd_lb: vec![10_000 * ONE; n_acc], nf, next_id: 1, wasm: w.ext::<Ext>().wat.clone() }
+        Model { fung, xrd_lb: vec![10_000 * ONE; n_acc], nf, next_id: 1, next_key: 0, wasm: w.ext::<Ext>().wat.clone() }
     }
 }
 
@@ -813,6 +815,56 @@ impl<'a> B<'a> {
             ops.push(Op::ActorSortedInsert { state: 0, collection: PUPPET_COLL_SORTED, sort: g.below(16) as u16, key: any_u32(g.below(64) as u32), value: any_u32(1) });
             slot += 1;
         }
+        // several fresh nodes stored by ONE write into an entry of the persistent component (fresh key:
+        // an entry owning nodes cannot be overwritten)
+        let mut owned = 0;
+        if g.chance(1, 3) {
+            owned = 2 + g.index(3);
+            let first = slot;
+            for _ in 0..owned {
+                ops.push(Op::KvStoreNew { allow_ownership: false });
+                slot += 1;
+            }
+            let key = 1_000_000 + self.m.next_key;
+            self.m.next_key += 1;
+            let owns: Vec<Own> = (0..owned).map(|i| Own(placeholder(first + i as u8))).collect();
+            ops.push(Op::ActorOpenKv { state: 0, collection: PUPPET_COLL_KV, key: any_u32(key), flags: 1 });
+            ops.push(Op::KvSet(slot, scrypto_encode(&owns).unwrap()));
+            ops.push(Op::KvClose(slot));
+            slot += 3;
+            self.labels.push("puppet: several new owned nodes stored by one write");
+        }
+        // index / sorted-index churn over a very small key space (collides with entries committed by
+        // earlier transactions): insert immediately followed by remove of the same key, or insert only
+        let mut churn = 0;
+        if g.chance(1, 2) {
+            churn = 1 + g.index(3);
+            for _ in 0..churn {
+                match g.index(4) {
+                    0 => {
+                        ops.push(Op::ActorIndexInsert { state: 0, collection: PUPPET_COLL_INDEX, key: any_u32(g.below(6) as u32), value: any_u32(g.below(100) as u32) });
+                        slot += 1;
+                    }
+                    1 => {
+                        let k = any_u32(g.below(6) as u32);
+                        ops.push(Op::ActorIndexInsert { state: 0, collection: PUPPET_COLL_INDEX, key: k.clone(), value: any_u32(g.below(100) as u32) });
+                        ops.push(Op::ActorIndexRemove { state: 0, collection: PUPPET_COLL_INDEX, key: k });
+                        slot += 2;
+                    }
+                    2 => {
+                        ops.push(Op::ActorSortedInsert { state: 0, collection: PUPPET_COLL_SORTED, sort: g.below(2) as u16, key: any_u32(g.below(3) as u32), value: any_u32(2) });
+                        slot += 1;
+                    }
+                    _ => {
+                        let (sort, k) = (g.below(2) as u16, any_u32(g.below(3) as u32));
+                        ops.push(Op::ActorSortedInsert { state: 0, collection: PUPPET_COLL_SORTED, sort, key: k.clone(), value: any_u32(3) });
+                        ops.push(Op::ActorSortedRemove { state: 0, collection: PUPPET_COLL_SORTED, sort, key: k });
+                        slot += 2;
+                    }
+                }
+            }
+            self.labels.push("puppet: index insert / insert-then-remove on colliding keys");
+        }
         let field = g.bool() || (kv + idx + sorted == 0);
         if field {
             ops.push(Op::ActorOpenField { state: 0, field: g.below(3) as u8, flags: 1 });
@@ -842,7 +894,7 @@ impl<'a> B<'a> {
                 ops.push(Op::Panic("boom".into()));
             }
         }
-        (Script(ops), format!("puppet act: {} kv, {} index, {} sorted, field write {}", kv, idx, sorted, field))
+        (Script(ops), format!("puppet act: {} kv, {} index, {} sorted, {} new owned kv stores in one entry, {} index churn ops, field write {}", kv, idx, sorted, owned, churn, field))
     }
 
     fn puppet_function(&mut self, g: &mut Gen) -> bool {
